@@ -88,7 +88,10 @@ func must(b *runner.Batch, r *world.TxResult, what string) bool {
 	return true
 }
 
-func newPrep(b *runner.Batch, n int) *prep {
+func newPrep(b *runner.Batch, n int) *prep { return newPrepWith(b, n, b.Set) }
+
+// newPrepWith builds the prepared world from the given contract set.
+func newPrepWith(b *runner.Batch, n int, set world.Set) *prep {
 	w, err := world.New(world.Options{N: n, Seed: b.Seed, Batch: b.Index*1000 + n})
 	if err != nil {
 		b.Inconclusive("world: " + err.Error())
@@ -105,7 +108,7 @@ func newPrep(b *runner.Batch, n int) *prep {
 	p.irMajority = world.Multi(sorted, smartcontract.GetMajorityHonestNodeCount(3))
 	p.irAll = world.Multi(sorted, 3*2/3+1)
 	cfg := []any{[]byte("ContainerFee"), int64(1), []byte("ContainerAliasFee"), int64(1)}
-	if err := w.DeployFS(b.Set, world.FSOptions{NetmapConfig: cfg, Alphabet: true, IR: world.Pubs(p.ir), ExtraTLDs: []string{"com"}}); err != nil {
+	if err := w.DeployFS(set, world.FSOptions{NetmapConfig: cfg, Alphabet: true, IR: world.Pubs(p.ir), ExtraTLDs: []string{"com"}}); err != nil {
 		b.Inconclusive("deploy: " + err.Error())
 		w.Close()
 		return nil
@@ -114,16 +117,16 @@ func newPrep(b *runner.Batch, n int) *prep {
 	for _, pk := range w.Pubs {
 		pubs = append(pubs, pk.Bytes())
 	}
-	proc, err := w.Deploy("processing", b.Set["processing"], []any{util.Uint160{1}})
+	proc, err := w.Deploy("processing", set["processing"], []any{util.Uint160{1}})
 	if err == nil {
-		_, err = w.Deploy("neofs", b.Set["neofs"], []any{false, proc.Hash, pubs, []any{[]byte("InnerRingCandidateFee"), int64(10), []byte("WithdrawFee"), int64(10)}})
+		_, err = w.Deploy("neofs", set["neofs"], []any{false, proc.Hash, pubs, []any{[]byte("InnerRingCandidateFee"), int64(10), []byte("WithdrawFee"), int64(10)}})
 	}
 	if err == nil {
 		// Processing.verify asks the NeoFS contract for the Alphabet address: redeploy Processing pointing to it
 		delete(w.C, "processing")
 		snd := world.Single(world.Key(b.Seed, b.Index, "c03-procdeployer", n))
 		w.FundGAS(snd.ScriptHash(), 500_0000_0000)
-		_, err = w.DeployFrom(snd, "processing", b.Set["processing"], []any{w.H("neofs")})
+		_, err = w.DeployFrom(snd, "processing", set["processing"], []any{w.H("neofs")})
 	}
 	if err != nil {
 		b.Inconclusive("deploy main-chain contracts: " + err.Error())
@@ -180,7 +183,7 @@ func newPrep(b *runner.Batch, n int) *prep {
 		p.probe = d.Hash
 	}
 	p.nefs, p.mans = map[string][]byte{}, map[string][]byte{}
-	for name, a := range b.Set {
+	for name, a := range set {
 		p.nefs[name], p.mans[name] = a.NEFBytes, a.ManBytes
 	}
 	return p
